@@ -148,3 +148,83 @@ func c08NilConstructors(t *testing.T, c *ev.Collector) {
 		}
 	}
 }
+
+// c08TwoClients: one *connect.Request value goes through client A and then
+// through client B (different compression settings, same handler with the
+// library's defaults): what A wrote into the caller's header map - the
+// algorithm it compressed with, the algorithms it accepts - says nothing about
+// B.  Differential oracle: B's outcome with the reused Request equals B's
+// outcome with a fresh one, and B's request decodes cleanly.
+func c08TwoClients(t *testing.T, c *ev.Collector) {
+	idx := 500
+	pairs := [][2]Comp{{CompCustom, CompDefault}, {CompCustom, CompNone}, {CompSendGzip, CompNone}, {CompDefault, CompNone}, {CompSendGzip, CompDefault}, {CompNone, CompSendGzip}}
+	for _, p := range AllProtos {
+		for _, pair := range pairs {
+			idx++
+			if !ev.Mine(idx) {
+				continue
+			}
+			key := fmt.Sprintf("two-clients/%s/unary/%s-then-%s", p, pair[0], pair[1])
+			c.Case(key, true)
+			Bubble(t, func() {
+				h := NewHandler(KUnary, func(ctx context.Context, s HStream) error {
+					m, err := s.Receive()
+					if err != nil {
+						return err
+					}
+					return s.Send(&BV{Value: append([]byte{'r'}, m.Value...)})
+				})
+				tr := &memhttp.Transport{Handler: h, Proto: 2, SyncCloseReq: true}
+				a := NewClient(tr, Cfg{Proto: p, Comp: pair[0], Kind: KUnary, HTTP: 2})
+				b := NewClient(tr, Cfg{Proto: p, Comp: pair[1], Kind: KUnary, HTTP: 2})
+				tags := []string{"proto=" + p.String(), "kind=unary", "request-reused", "two-clients"}
+				call := func(cl *connect.Client[BV, BV], req *connect.Request[BV]) (string, bool) {
+					var res *connect.Response[BV]
+					var err error
+					g := Guarded(func() { res, err = cl.CallUnary(context.Background(), req) }, tr)
+					c.AddTransitions(3)
+					c.AddStates(3)
+					c.AddTraces(1)
+					if g.Hung || g.Panicked {
+						c.Violation("TestC08", "terminates", "hang-or-panic", tags, key, "%s: hung=%v panic=%v", key, g.Hung, g.Panic)
+						BailIfStuck(c, g)
+						return "", false
+					}
+					if err != nil {
+						return "error " + errString(err), true
+					}
+					return "ok " + shortBytes(res.Msg.Value), true
+				}
+				payload := Payload(MinBytes+200, 'q')
+				fresh, ok := call(b, connect.NewRequest(&BV{Value: payload}))
+				if !ok {
+					c.Outcome("violation")
+					return
+				}
+				req := connect.NewRequest(&BV{Value: payload})
+				if _, ok := call(a, req); !ok {
+					c.Outcome("violation")
+					return
+				}
+				reused, ok := call(b, req)
+				if !ok {
+					c.Outcome("violation")
+					return
+				}
+				if reused != fresh {
+					c.Violation("TestC08", "client-independent", "differs", tags, key, "%s: the second client's call with a Request that went through the first client before: %s; with a fresh Request: %s", key, clip(reused, 200), clip(fresh, 200))
+					c.Outcome("violation")
+					return
+				}
+				ex := tr.Last()
+				rq := refwire.DecodeRequest(wireProto(p), true, "POST", ex.ReqHeader, ex.ReqBody, true, AnyDecompress)
+				if len(rq.Problems) > 0 {
+					c.Violation("TestC08", "flag-consistent", "request-problem", tags, key, "%s: the second client's request does not decode: %v", key, rq.Problems)
+					c.Outcome("violation")
+					return
+				}
+				c.Outcome("ok")
+			})
+		}
+	}
+}
